@@ -332,7 +332,7 @@ func checkC14(tier string) int {
 func checkC15(tier string) int {
 	rep := vx.NewReport("C15", tier, "exploration")
 	rep.Assumptions = []string{"one hostile connection at a time next to one well-behaved registered producer (the per-connection protocol state is not shared between connections)", "default schedule; in-memory connections with exact byte delivery (TCP segmentation is enumerated as chunk boundaries)"}
-	rep.Rule = "E5: magic = all strings of length 4 over {space,V,1,2,NUL}; first input = all strings of length <= 3 over {space,LF,A,0,NUL,0xFF}; every command x 0-3 parameters from {valid, invalid, 65 chars, empty, 55 chars + #ephemeral (65 in all)} - no name that breaks the naming rules may end up registered; IDENTIFY length prefix in {-2^31,-1,0,1,len-1,len,len+1,2^20+1,2^31-1} x body in {valid, each required field missing / zero / wrong type, null, [], {}, truncated at every byte}; commands before IDENTIFY, IDENTIFY twice; REGISTER/UNREGISTER (once, twice, registered then undone) of every key the bystander holds, durable and ephemeral; every HTTP route x method x argument class. Each against a fresh real nsqlookupd with a bystander producer whose three registrations must stay intact and which must keep being answered. distinct = distinct (input class, answers) outcomes"
+	rep.Rule = "E5: magic = all strings of length 4 over {space,V,1,2,NUL}; first input = all strings of length <= 3 over {space,LF,A,0,NUL,0xFF}; every command x 0-3 parameters from {valid, invalid, 65 chars, empty, 55 chars + #ephemeral (65 in all)} - no name that breaks the naming rules may end up registered; IDENTIFY length prefix in {-2^31,-1,0,1,len-1,len,len+1,2^20+1,2^31-1} x body in {valid, each required field missing / zero / wrong type, null, [], {}, truncated at every byte}; commands before IDENTIFY, IDENTIFY twice; REGISTER/UNREGISTER (once, twice, registered then undone) of every key the bystander holds, durable and ephemeral; every HTTP route x method x argument class. Each against a fresh real nsqlookupd with a bystander producer whose three registrations must stay intact and which must keep being answered. plus E1: every interleaving (DPOR) of a registry-walking read request (/debug, /nodes, /topics, /channels, /lookup) with a writer (REGISTER, UNREGISTER, disconnect, admin create/delete/tombstone): no deadlock, no panic. distinct = distinct (input class, answers) outcomes"
 	var specs []nsqlookupd.RobustSpec
 	tcp := func(desc string, data []byte) {
 		specs = append(specs, nsqlookupd.RobustSpec{Kind: "tcp", Data: data, Desc: desc})
@@ -420,6 +420,50 @@ func checkC15(tier string) int {
 				}
 			}
 		}
+	}
+	// E1: a read-only HTTP request that walks the registry (/debug, /nodes, /topics, /channels,
+	// /lookup) concurrently with a writer (REGISTER, UNREGISTER, disconnect, admin create /
+	// delete / tombstone): every interleaving; no deadlock, no panic, answers 200 - a request
+	// must not be able to wedge the daemon for everybody else
+	{
+		pre := []string{"conn:p1", "conn:p2", "reg:p1:T:C", "reg:p1:T:X#ephemeral", "reg:p1:E#ephemeral:", "reg:p2:T:C"}
+		var margs []interface{}
+		var mspecs []nsqlookupd.LMicroSpec
+		for _, rd := range []string{"debug", "nodes", "topics", "channels:T", "lookup:T"} {
+			for _, wr := range []string{"reg:p2:U:", "unreg:p1:T:C", "drop:p1", "mktopic:V", "rmtopic:T", "mkchan:T:W", "rmchan:T:C", "tomb:T:p1"} {
+				sp := nsqlookupd.LMicroSpec{Pre: pre, Ops: []string{rd, wr}}
+				mspecs = append(mspecs, sp)
+				margs = append(margs, lmicroJob{Spec: sp, MaxRuns: 20000})
+			}
+		}
+		msched := 0
+		vx.Par("lkmicro", margs, func(i int, res json.RawMessage, errStr, crash string) {
+			if crash != "" || errStr != "" {
+				rep.InfraError(fmt.Sprintf("lookupd micro %s: %s%s", mspecs[i], crash, errStr))
+				return
+			}
+			var r lmicroRes
+			json.Unmarshal(res, &r)
+			msched += r.Res.Runs
+			rep.Evaluations += r.Res.Runs
+			if !r.Res.Exhaustive {
+				rep.Exhaustive = false
+				rep.Notes = append(rep.Notes, mspecs[i].String()+": "+r.Res.Capped)
+			}
+			for _, s := range r.Res.Infra {
+				rep.InfraError(mspecs[i].String() + ": " + s)
+			}
+			for _, f := range r.Res.Found {
+				// the differential clause belongs to C14; here: crashes, deadlocks, failed reads
+				if strings.HasPrefix(f.Sig, "C14 ") {
+					continue
+				}
+				f.Sig = "C15 " + f.Sig + " :: lookupd micro " + mspecs[i].String()
+				rep.Violation(f)
+			}
+		})
+		rep.Extra["e1_reader_vs_writer_scenarios"] = len(mspecs)
+		rep.Extra["e1_schedules_executed"] = msched
 	}
 	var args []interface{}
 	var groups [][]nsqlookupd.RobustSpec
